@@ -164,6 +164,9 @@ class CutScn:
                         raise ValueError("this callback fails on its endmarker")
 
                 chans[P["callback"]].setcallback(cbf, endmarker=END)
+                if P.get("cb_dropped"):
+                    # only the callback is left of this channel: its handle is gone before the peer dies
+                    chans[P["callback"]] = None
             if inflight is not None:
 
                 def infl():
@@ -338,6 +341,8 @@ BASES = [
     # E: a callback that FAILS on its endmarker sits on the channel with the lowest id; a receiver and a
     # waitclose caller are blocked on a later channel
     {"items": [(0, 5), (1, 5)], "extra": 1, "closes": [], "block": True, "receivers": {1: 1}, "waiters": {1: 1}, "callback": 0, "inflight": False, "cb_raises_end": True},
+    # F: the callback channel's handle was dropped before the loss (only the registered callback is left)
+    {"items": [(0, 5), (1, 5), (1, 0)], "extra": 1, "closes": [], "block": True, "receivers": {0: 1}, "waiters": {0: 1}, "callback": 1, "inflight": False, "cb_dropped": True},
     # C: nothing but an in-flight remote_exec and idle channels, two waitclose callers
     {"items": [(1, 5)], "extra": 1, "closes": [], "block": True, "receivers": {1: 1}, "waiters": {0: 2}, "callback": None, "inflight": True},
 ]
@@ -356,7 +361,7 @@ def run(tier: str, only=None) -> int:
     transports = ("popen", "socket", "via")
     for bi, base in enumerate(BASES):
         for tr in transports:
-            name = f"cut/{'ABDEC'[bi]}:{tr}"
+            name = f"cut/{'ABDEFC'[bi]}:{tr}"
             if only and only not in name:
                 continue
             if tier == "quick" and tr != "popen" and bi >= 2:
